@@ -5,6 +5,7 @@ import random
 import gen_glob as GG
 import gen_mapper as GM
 import mapper_engine as ME
+import genproof
 import vf
 
 TRUSTED = [
@@ -44,6 +45,12 @@ def gen_ops(rnd, nops):
     cfgs = [overlap(rnd, c) if rnd.random() < 0.6 else c for c in cfgs]
     nkeys = rnd.choice([2, 4, 12])
     keyspace = []
+    if rnd.random() < 0.25:
+        import gen_line as GL
+        keyspace += GL.FNV_TWIN_COUNTER_NAMES + GL.FNV64_TWIN_NAMES        # names whose cache keys collide under FNV-1a (as counters)
+        twins = [GM.rule(b"req.*", b"req_$1", help=b"tw0", labels=[(b"c1", b"$1")]), GM.rule(b"app.*.requests", b"app_$1", help=b"tw1", labels=[(b"c1", b"$1")]),
+                 GM.rule(b"m.*", b"m_$1", help=b"tw2", labels=[(b"c1", b"$1")])]
+        cfgs = [(d, [dict(t) for t in twins] + rules) for d, rules in cfgs]
     globs = [r["match"] for c in cfgs for r in c[1] if r["match_type"] != b"regex"]
     for _ in range(nkeys):
         # mostly names that some rule of some configuration matches, so that answers (and their types) differ
@@ -68,7 +75,7 @@ def gen_ops(rnd, nops):
 def cache_keys(rep, rnd, n):
     """the key under which a (type, name) pair is cached must be the model's injective format_key: type, a dot, the name"""
     import gen_line as GL
-    pool = GL.NAME_ATOMS + GL.SYNTAX_NAMES + [b"", b".", b"counter", b"gauge.a", b"a.counter", b"observer.x"]
+    pool = GL.NAME_ATOMS + GL.SYNTAX_NAMES + [b"", b".", b"counter", b"gauge.a", b"a.counter", b"observer.x"] + GL.FNV_TWIN_COUNTER_NAMES + GL.FNV64_TWIN_NAMES
     cases = []
     for _ in range(n):
         name = b".".join(rnd.choice(pool) for _ in range(rnd.randint(1, 4))) if rnd.random() < 0.8 else bytes(rnd.randrange(1, 256) for _ in range(rnd.randint(1, 40))).replace(b"\n", b"n")
@@ -95,7 +102,7 @@ def cache_keys(rep, rnd, n):
     rep.extra["cache_key_disagreements"] = bad
 
 
-def run(rep, tier, seed, replay):
+def _run(rep, tier, seed, replay):
     rep.cov["trusted_base"] = TRUSTED
     rnd = random.Random(seed)
     nseq = 150 if tier == "quick" else 4000
@@ -148,3 +155,9 @@ def run(rep, tier, seed, replay):
     rep.extra["disagreements_with_model"] = nbad
     rep.extra["repeated_key_lookups"] = hits
     rep.sample(dict(desc=seqs[0][1][:12], impl=impl[1][:6]))
+
+
+def run(rep, tier, seed, replay):
+    _run(rep, tier, seed, replay)
+    if not replay:
+        genproof.clock_obligation(rep, "C13_clock.v", "the mapper or one of its caches asks the clock something (entries that age, time-based decisions), while a lookup is a function of the configuration, the name, the type and the cache contents", ('pkg/mapper', 'pkg/mappercache'))
